@@ -506,7 +506,7 @@ impl<P: Payload> InitState<P> {
         h2[0..4].clone_from_slice(&hash[0..4]);
         h2[4..].clone_from_slice(&node_id);
         let d = digest::digest(&digest::SHA256, &h2);
-        hash == d.as_ref()
+        hash[4..] == d.as_ref()[..16]
     }
 
     fn send_message(&mut self, stage: u8, ecdh_public_key: Option<EcdhPublicKey>, out: &mut MsgBuffer) {
